@@ -51,19 +51,114 @@ func c04Source() (*Script, bool) {
 }
 
 type parseResult struct {
-	dig  []int
-	errs []parser.ParserError
-	code string
-	ok   bool
+	dig    []int
+	errs   []parser.ParserError
+	code   string
+	ok     bool
+	nstmts int // statements parsed through the statement parse function (-1: unknown)
+}
+
+// countStmts counts the statements of a tree that are parsed through the
+// (interceptable) statement parse function: list entries, branches and loop
+// bodies, but not function bodies (parsed as blocks directly).
+func countStmts(s ast.Statement) int {
+	switch v := s.(type) {
+	case *ast.BlockStatement:
+		n := 1
+		for _, st := range v.Statements {
+			n += countStmts(st)
+		}
+		return n
+	case *ast.IfStatement:
+		n := 1 + countStmts(v.ThenBranch)
+		if v.ElseBranch != nil {
+			n += countStmts(v.ElseBranch)
+		}
+		return n + countExprStmts(v.Condition)
+	case *ast.WhileStatement:
+		return 1 + countStmts(v.Body) + countExprStmts(v.Condition)
+	case *ast.ForStatement:
+		return 1 + countStmts(v.Body) + countExprStmts(v.Init) + countExprStmts(v.Condition) + countExprStmts(v.Update)
+	case *ast.FunctionDeclaration:
+		return 1 + countBody(v.Body)
+	case *ast.LetStatement:
+		return 1 + countExprStmts(v.Value)
+	case *ast.ReturnStatement:
+		return 1 + countExprStmts(v.ReturnValue)
+	case *ast.ExpressionStatement:
+		return 1 + countExprStmts(v.Expression)
+	}
+	return 1
+}
+
+func countBody(b *ast.BlockStatement) int {
+	n := 0
+	if b != nil {
+		for _, st := range b.Statements {
+			n += countStmts(st)
+		}
+	}
+	return n
+}
+
+// countExprStmts counts statements nested inside expressions (function
+// expression bodies).
+func countExprStmts(e ast.Expression) int {
+	if isNilExpr(e) {
+		return 0
+	}
+	switch v := e.(type) {
+	case *ast.FunctionExpression:
+		return countBody(v.Body)
+	case *ast.BinaryExpression:
+		return countExprStmts(v.Left) + countExprStmts(v.Right)
+	case *ast.UnaryExpression:
+		return countExprStmts(v.Right)
+	case *ast.PostfixExpression:
+		return countExprStmts(v.Left)
+	case *ast.GroupedExpression:
+		return countExprStmts(v.Expression)
+	case *ast.AssignmentExpression:
+		return countExprStmts(v.Left) + countExprStmts(v.Value)
+	case *ast.CompoundAssignmentExpression:
+		return countExprStmts(v.Left) + countExprStmts(v.Value)
+	case *ast.LetExpression:
+		return countExprStmts(v.Value)
+	case *ast.MemberExpression:
+		return countExprStmts(v.Object) + countExprStmts(v.Property)
+	case *ast.CallExpression:
+		n := countExprStmts(v.Function)
+		for _, a := range v.Arguments {
+			n += countExprStmts(a)
+		}
+		return n
+	case *ast.ArrayLiteral:
+		n := 0
+		for _, a := range v.Elements {
+			n += countExprStmts(a)
+		}
+		return n
+	case *ast.ObjectLiteral:
+		n := 0
+		for _, pr := range v.Properties {
+			n += countExprStmts(pr.Key) + countExprStmts(pr.Value)
+		}
+		return n
+	}
+	return 0
 }
 
 func parseWith(s *Script, pb *parser.Builder) parseResult {
 	p := pb.Build("")
 	prog, err := p.ParseProgram()
 	d := DigestOf(prog, false)
-	r := parseResult{dig: d.Out, errs: p.Errors(), ok: err == nil}
+	r := parseResult{dig: d.Out, errs: p.Errors(), ok: err == nil, nstmts: -1}
 	if err == nil && !d.Missing && !d.NilEntry {
 		r.code = compiler.New().Compile(prog).Code
+		r.nstmts = 0
+		for _, st := range prog.Statements {
+			r.nstmts += countStmts(st)
+		}
 	}
 	return r
 }
@@ -121,6 +216,10 @@ func ZZH4aTransparent() {
 	sym.Assert(SameInts(base.dig, got.dig), "same-tree-with-pass-through-interceptors")
 	sym.Assert(base.ok == got.ok && errorsEqual(base.errs, got.errs), "same-errors-with-pass-through-interceptors")
 	sym.Assert(sym.EqStr(base.code, got.code), "same-output-with-pass-through-interceptors")
+	// every statement of an accepted program went through the interceptors once
+	if got.ok && ns > 0 && got.nstmts >= 0 {
+		sym.Assert(len(slog) == ns*got.nstmts, "statement-interceptors-see-every-statement")
+	}
 	// order: each parse step logs ids 0..n-1 consecutively on one token
 	checkGroups(slog, ns, "statement-interceptors-run-once-per-step-in-installation-order")
 	checkGroups(elog, ne, "expression-interceptors-run-once-per-step-in-installation-order")
@@ -257,8 +356,11 @@ func ZZH4bCurrentToken() {
 // asks the parser to continue the remaining expression obtains the default
 // tree, at every nesting depth, also between pass-through interceptors.
 func ZZH4cReentrant() {
-	g, s := GenProgram()
+	s, valid := c04Source()
 	sym.Observe("script", s.Types(), s.Newlines())
+	s.Rewind()
+	base := parseWith(s, parser.NewBuilder(s.LexerBuilder()))
+	s.Rewind()
 	var elog []icLog
 	before := sym.Choose("before", 2)
 	after := sym.Choose("after", 2)
@@ -272,12 +374,13 @@ func ZZH4cReentrant() {
 	for i := 0; i < after; i++ {
 		pb.UseExpressionInterceptor(passExpr(&elog, 10+i))
 	}
-	p := pb.Build("")
-	prog, err := p.ParseProgram()
-	d := DigestOf(prog, true)
-	sym.Observe("tree", d.Out, g.Dig, len(p.Errors()))
-	sym.Assert(err == nil, "valid-program-accepted")
-	sym.Assert(SameInts(d.Out, g.Dig), "re-entrant-interceptor-obtains-the-default-tree")
+	got := parseWith(s, pb)
+	sym.Observe("tree", got.dig, base.dig, len(got.errs), len(base.errs))
+	if valid {
+		sym.Assert(got.ok, "valid-program-accepted")
+	}
+	sym.Assert(SameInts(got.dig, base.dig), "re-entrant-interceptor-obtains-the-default-tree")
+	sym.Assert(got.ok == base.ok && errorsEqual(got.errs, base.errs), "re-entrant-interceptor-obtains-the-default-errors")
 	sym.Cover("end")
 }
 
